@@ -95,7 +95,7 @@ def run_cli(case):
     try:
         src = root / "src"
         b = root / "build"
-        base0 = ["--color_format", fmt, "--output_file", "Font.ttf", "--build_dir", str(b)]
+        base0 = ["--color_format", fmt, "--output_file", "Font.ttf", "--build_dir", str(b)] + (["--verbosity", "1"] if case["i"] % 4 == 1 else [])
         base = base0 + flags
         if fmt == "cbdt" and "--bitmap_resolution" not in flags:
             base += ["--bitmap_resolution", "32"]
